@@ -14,7 +14,7 @@ SM == {<<"SP1", "3100000000">>,      \* rewards: + 5 %
        <<"SP1", "999999999">>}       \* below the permanent SOL: the subtraction fails
 DL == {<<"SP1", "LST1", 600000000>>}
 SE == {[aw |-> <<1, 2, 13, 20>>], [aw |-> <<9, 10, 4, 5>>], [aw |-> <<1, 1, 1, 1>>], [aw |-> <<0, 1, 0, 1>>, risk_tier |-> 1], [risk_tier |-> 1],
-       [max_age |-> 30], [max_age |-> 9], [init_limit |-> 60], [init_limit |-> 0]}
+       [max_age |-> 30], [max_age |-> 9], [init_limit |-> 60], [init_limit |-> 0], [oracle |-> "OALT"], [oracle |-> "OSOL"]}
 BPS == {<<"A1", "BSOL">>}
 WDP == {<<"A1", "SB1">>}
 SLC == {<<"A2", "A1", "SB1", "BSOL">>}
